@@ -5,9 +5,16 @@
 (* the scalar positions of the YAML files of ONE invocation.               *)
 (*                                                                         *)
 (* A document (one file) is  [slots, objs]:                                *)
-(*   slots[p] = [cont, ct, o]   the p-th scalar position in document order:*)
+(*   slots[p] = [cont, ct, o, vis, loc, canc]   the p-th scalar position   *)
+(*              the path generator visits, in document order:              *)
 (*              the container holding it (an id), that container's type    *)
 (*              ("map" | "seq") and the value object found there;          *)
+(*              canc = the anchor name of that container ("" = none).  A   *)
+(*              container that is aliased elsewhere (`copy: *box`) is      *)
+(*              visited once per reference: vis numbers the visits, and    *)
+(*              loc = the first position that designates the same physical *)
+(*              place (loc = p except on a later visit), so positions with *)
+(*              one loc necessarily hold one object;                       *)
 (*   objs[o]  = [head, key, pt, anc, folded, trail]   a value object       *)
 (*              (a CELL):                                                  *)
 (*              head   the first characters of its text,                   *)
@@ -56,7 +63,12 @@ CONSTANTS
   FixedOutput, \* TRUE : the plaintext the command printed is taken as it is (what the property demands)
                \* FALSE: as eyamlprocessor.py:167-173 reads it - .rstrip(): white space at the end of the plaintext
                \*        is lost, a plaintext of nothing but white space counts as a failed decryption
-  ResetSeen    \* TRUE : seen_anchors starts empty for every file (:119); FALSE: it leaks into the next file
+  ResetSeen,   \* TRUE : seen_anchors starts empty for every file (:119); FALSE: it leaks into the next file
+  ContainerGuard \* what the path generator does with an anchored Hash/Array it meets again (eyamlprocessor.py:73-98)
+               \* "none"   : descends again - the code as read today; the values below are reported a second time,
+               \*            the second decryption (of an already re-keyed value) fails and the run exits 3
+               \* "perfile": skips a container whose anchor name was already scanned in THIS file
+               \* "leaky"  : the same, but the names scanned are kept across the files of one invocation
 
 (* marker recognition, eyamlprocessor.py:379-395 *)
 IsEyaml(text) == StartsWith(Replace(Replace(text, "\n", ""), " ", ""), "ENC[")
@@ -89,6 +101,7 @@ RInit(files, backup) ==
    last |-> 0,       \* last position get_nodes yielded for the current path
    tgt |-> 0,        \* position being rotated
    seen |-> {},      \* seen_anchors
+   carry |-> {},     \* container anchor names scanned in the files closed so far (used by the "leaky" guard only)
    buf |-> 0, fmt |-> "",      \* decrypted plaintext and the output format chosen (:170-172)
    changed |-> FALSE, backed |-> FALSE, written |-> FALSE,
    ndec |-> <<>>, nenc |-> <<>>]
@@ -102,9 +115,14 @@ Closed(s) == [doc |-> s.doc, heap |-> s.heap, bind |-> s.bind, ndec |-> s.ndec, 
 Pending(s) ==
   IF s.cur = 0 THEN {}
   ELSE IF s.panc = "" THEN (IF s.last = 0 THEN {s.cur} ELSE {})
-  ELSE {p \in 1..NPos(s) : p > s.last /\ Slot(s, p).cont = Slot(s, s.cur).cont /\ Obj(s, p).anc = s.panc}
+  ELSE {p \in 1..NPos(s) : p > s.last /\ Slot(s, p).vis = Slot(s, s.cur).vis /\ Obj(s, p).anc = s.panc}
+\* positions the path generator never reports because the guard does not descend into their container (again)
+Skipped(s, p) ==
+  LET a == Slot(s, p).canc IN
+  a # "" /\ ContainerGuard # "none"
+  /\ ((\E q \in 1..(p - 1) : Slot(s, q).canc = a /\ Slot(s, q).vis # Slot(s, p).vis) \/ a \in s.carry)
 \* encrypted positions the path generator has not reached yet (evaluated on the document as it is now)
-Ahead(s) == {p \in 1..NPos(s) : p > s.cur /\ Enc(Obj(s, p))}
+Ahead(s) == {p \in 1..NPos(s) : p > s.cur /\ Enc(Obj(s, p)) /\ ~Skipped(s, p)}
 
 (* ---- the observable view of a document: per position the identity class, key and plaintext ---- *)
 ClassOf(bind, p) == MinOf({q \in 1..Len(bind) : bind[q] = bind[p]})
@@ -119,9 +137,10 @@ Refused(o) == o.trail = "empty" \/ (~FixedOutput /\ o.trail = "allws")
 
 (* ---- Store ---- *)
 Rebound(s) ==
-  LET t == s.tgt IN
-  IF FixedStore THEN {p \in 1..NPos(s) : s.bind[p] = s.bind[t]}
-  ELSE {p \in 1..NPos(s) : s.bind[p] = s.bind[t] /\ (Slot(s, p).ct = "map" \/ Slot(s, p).cont = Slot(s, t).cont)}
+  LET t == s.tgt
+      r0 == IF FixedStore THEN {p \in 1..NPos(s) : s.bind[p] = s.bind[t]}
+            ELSE {p \in 1..NPos(s) : s.bind[p] = s.bind[t] /\ (Slot(s, p).ct = "map" \/ Slot(s, p).cont = Slot(s, t).cont)}
+  IN {p \in 1..NPos(s) : \E q \in r0 : Slot(s, p).loc = Slot(s, q).loc}      \* one physical place, one value
 StoreHeap(s) == Append(s.heap, [head |-> NewHead, key |-> "new", pt |-> s.buf, anc |-> Obj(s, s.tgt).anc,
                                 folded |-> Obj(s, s.tgt).folded, cell |-> Obj(s, s.tgt).cell, enc |-> NewEnc,
                                 trail |-> IF s.buf < 0 THEN "" ELSE Obj(s, s.tgt).trail])
@@ -131,7 +150,7 @@ StoreBind(s) == [p \in 1..NPos(s) |-> IF p \in Rebound(s) THEN Len(s.heap) + 1 E
 Expect(s) ==
   IF s.pc = "scan" THEN
        (IF Pending(s) # {}
-          THEN {[e |-> "Node", pos |-> MinOf(Pending(s)), anc |-> Obj(s, MinOf(Pending(s))).anc]}
+          THEN {[e |-> "Node", pos |-> Slot(s, MinOf(Pending(s))).loc, anc |-> Obj(s, MinOf(Pending(s))).anc]}
         ELSE IF Ahead(s) # {} THEN {[e |-> "Find"]}
         ELSE IF s.changed /\ s.backup /\ ~s.backed THEN {[e |-> "Backup"]}
         ELSE IF s.changed /\ ~s.written THEN {[e |-> "Write"]}
@@ -152,15 +171,17 @@ Apply(s, e) ==
                    !.doc = d, !.heap = LoadHeap(d), !.bind = LoadBind(d), !.ndec = Zeros(d), !.nenc = Zeros(d),
                    !.cur = 0, !.panc = "", !.last = 0, !.tgt = 0, !.buf = 0, !.fmt = "",
                    !.seen = IF ResetSeen THEN {} ELSE @,
+                   !.carry = IF ContainerGuard = "leaky" THEN @ \cup ({s.doc.slots[p].canc : p \in 1..NPos(s)} \ {""}) ELSE @,
                    !.changed = FALSE, !.backed = FALSE, !.written = FALSE]
     [] e.e = "Find" ->
          LET p == MinOf(Ahead(s)) IN
          [s EXCEPT !.cur = p, !.last = 0,
                    !.panc = IF Slot(s, p).ct = "seq" THEN Obj(s, p).anc ELSE ""]
     [] e.e = "Node" ->
+         LET p == MinOf(Pending(s)) IN      \* e.pos names its physical place
          IF e.anc # "" /\ e.anc \in s.seen
-           THEN [s EXCEPT !.last = e.pos]                                         \* SkipSeenAnchor
-           ELSE [s EXCEPT !.last = e.pos, !.tgt = e.pos, !.pc = "dec",
+           THEN [s EXCEPT !.last = p]                                             \* SkipSeenAnchor
+           ELSE [s EXCEPT !.last = p, !.tgt = p, !.pc = "dec",
                           !.seen = IF e.anc = "" THEN @ ELSE @ \cup {e.anc}]
     [] e.e = "Decrypt" ->
          LET o == Obj(s, s.tgt) IN
